@@ -18,12 +18,14 @@ from .. import tlc
 from ..core import pool_map
 
 MODULE = "linalg/Subspace.tla"
-DEVS = ["LrsvWideMatrixIndex", "PcmWideMatrixShape", "WhitenEigNotOrthogonal"]
+DEVS = ["LrsvWideMatrixIndex", "PcmWideMatrixShape", "WhitenEigNotOrthogonal", "SmwZeroSkipShiftsIndex", "ProjLazyOQFromCallerArray"]
 TOL = 1e-9
+HIST_MAX = 3         # = HistMax of the specification
 RTOL = 1e-8          # (rel) sub-claims through SVD / eig
 
 INVS = {
     "proj": ["ProjHermitian", "ProjIdempotent", "ProjFixesA", "ProjComplementary", "ReflectTwice", "ProjRank", "ProjSplits"],
+    "projhist": ["ProjObjectCoherent", "ProjHistInputs"],
     "chord": ["ChordFormsAgree", "ChordSymmetric", "ChordZeroOnEqual", "ChordBasisInvariant", "ChordUnitaryInvariant", "ChordHouseholderIsUnitary", "ChordAngles", "ChordRange"],
     "chordx": ["ChordXFormsAgree", "ChordXSymmetric", "ChordXBasisInvariant", "ChordXUnitaryInvariant", "ChordXRange"],
     "smw": ["SmwIsInverse"],
@@ -38,7 +40,7 @@ INVS = {
 INVS["projx"] = INVS["proj"]
 ACTION_OF = {"proj": "Proj", "projx": "Proj", "chord": "Chord", "chordx": "ChordX", "conv": "Conv", "ebn0": "Eb", "eig": "Eig", "svd": "Svd",
              "gmd": "Gmd", "whiten": "Whiten", "eigrel": "EigRel"}
-ACTIONS = ["Proj", "Chord", "ChordX", "SmwPick", "SmwStep", "Conv", "Eb", "Eig", "Svd", "Gmd", "Whiten", "EigRel"]
+ACTIONS = ["Proj", "ProjHistPick", "ProjHistStep", "Chord", "ChordX", "SmwPick", "SmwStep", "Conv", "Eb", "Eig", "Svd", "Gmd", "Whiten", "EigRel"]
 
 SQ = lambda *ns: [[n, n] for n in ns]
 # <<rows, n1, n2>> for the mixed-dimension chordal family; (dA dB)^2 (n1 + n2) stays below 2^31 for these
@@ -55,6 +57,7 @@ def plan(tier):
         return [
             ("projx 2x1 (all)", "projx", [[2, 1]], 1, 81, 81),
             ("projx 3x1 (all)", "projx", [[3, 1]], 1, 729, 729),
+            ("projhist (object histories)", "projhist", [[2, 1], [3, 1], [3, 2], [4, 2]], 2, 12, 12),
             ("proj 3x2/4x2/2x2 a=2", "proj", [[3, 2], [4, 2], [2, 2], [4, 1]], 2, 320, 320),
             ("proj 4x3/5x2/3x3 a=1", "proj", [[4, 3], [5, 2], [3, 3], [5, 1]], 1, 200, 200),
             ("chord", "chord", [[2, 1], [3, 1], [3, 2], [4, 1], [4, 2]], 1, 400, 400),
@@ -74,6 +77,7 @@ def plan(tier):
     return [
         ("projx 2x1 (all)", "projx", [[2, 1]], 1, 81, 81),
         ("projx 3x1 (all)", "projx", [[3, 1]], 1, 729, 729),
+        ("projhist (object histories)", "projhist", [[2, 1], [3, 1], [3, 2], [4, 2], [4, 1], [2, 2]], 2, 120, 30),
         ("projx 2x2 (all)", "projx", [[2, 2]], 1, 6561, 1100),
         ("projx 4x1 (all)", "projx", [[4, 1]], 1, 6561, 1100),
         ("proj a=2", "proj", [[3, 2], [4, 2], [2, 2], [4, 1], [3, 1], [2, 1]], 2, 12000, 1000),
@@ -162,11 +166,17 @@ class Out:
 
 def _call(o, what, f, *a, fid=None, exc=()):
     """call f; an exception is a mismatch (attributed to finding fid when its type is in exc)"""
+    snap = [x.copy() if isinstance(x, np.ndarray) else None for x in a]
     try:
-        return True, f(*a)
+        r = f(*a)
     except Exception as ex:  # noqa
         o.check(False, f"{what} raised {type(ex).__name__}: {ex}", fid if isinstance(ex, exc) else None)
         return False, None
+    # call discipline: ndarray arguments are inputs only (bit-identical after the call)
+    for x, k in zip(a, snap):
+        if k is not None and not (x.shape == k.shape and x.dtype == k.dtype and np.array_equal(x, k, equal_nan=True)):
+            o.check(False, f"{what} modified one of its array arguments (ArgumentsUnchanged)")
+    return True, r
 
 
 # ------------------------------------------------------------------ the families
@@ -201,6 +211,44 @@ def ev_proj(c, o):
         o.check(close(pr.project(pr.project(M)), PM), t + "project is not idempotent")
         o.check(close(pr.project(M) + pr.oProject(M), M), t + "project(M) + oProject(M) != M")
         o.check(close(pr.Q, pr.Q.conj().T), t + "projection matrix is not Hermitian")
+
+
+def ev_projhist(c, o):
+    """one history of calls on ONE Projection object; the caller may overwrite its array in place in between.
+    Every returned value must be the one of the basis as it was at construction (emitted exactly by TLC)."""
+    from pyphysim.subspace.projections import Projection
+    den, m = c["den"], len(c["A1"])
+    exp = {"project": mat(c["PM"], den), "oProject": mat(c["oPM"], den), "reflect": mat(c["RM"], den), "oQ": mat(c["onum"], den)}
+    P1 = mat(c["num"], den)
+    M = mat(c["M"])
+    for dt, A1 in variants(c["A1"])[:2]:
+        A = A1.copy()                                   # the caller's array
+        A2 = mat(c["A2"]).real.copy() if dt == "float" else mat(c["A2"])
+        current = A.copy()
+        ok, pr = _call(o, f"[{dt}] Projection(A)", Projection, A)
+        if not ok:
+            continue
+        hist = "construct"
+        earlier = []                                    # (what, returned object, copy of it at return time)
+        for op in c["hist"]:
+            hist += " -> " + op
+            if op == "mutate":
+                A[...] = A2
+                current = A.copy()
+                continue
+            try:
+                got = pr.oQ if op == "oQ" else getattr(pr, op)(M)
+            except Exception as ex:  # noqa
+                o.check(False, f"[{dt}] {hist}: raised {type(ex).__name__}: {ex}")
+                break
+            o.check(close(got, exp[op]), f"[{dt}] {hist}: {op} does not return the value of the basis given at construction "
+                                         "(the object depends on the caller's array after the constructor returned)")
+            earlier.append((hist, got, np.array(got, copy=True)))
+        o.check(close(pr.Q, P1) and close(np.asarray(pr.Q) + np.asarray(pr.oQ), np.eye(m)),
+                f"[{dt}] {hist}: Q and oQ of the object are not complementary projectors of the constructed basis")
+        o.check(np.array_equal(A, current), f"[{dt}] {hist}: the object wrote into the caller's array")
+        for h, got, cp in earlier:                      # results stay results
+            o.check(np.array_equal(np.asarray(got), cp), f"[{dt}] {h}: an earlier result was changed by a later call")
 
 
 def ev_chord(c, o):
@@ -279,16 +327,17 @@ def ev_chordx(c, o):
 def ev_smw(c, o):
     from pyphysim.util.misc import update_inv_sum_diag
     exp = mat(c["expInv"])
-    diag = np.array(c["diagk"], dtype=float)
-    vs = [("complex", mat(c["inv0"]))]
+    vs = [("complex", mat(c["inv0"])), ("complex/F-order", np.asfortranarray(mat(c["inv0"])))]
     if is_real(c["inv0"]):
         vs.append(("float", mat(c["inv0"]).real.copy()))
-    for dt, inv0 in vs:
-        keep = inv0.copy()
-        ok, got = _call(o, "update_inv_sum_diag", update_inv_sum_diag, inv0, diag)
-        if ok:
-            o.check(close(got, exp), f"[{dt}] update_inv_sum_diag(inv(A), d[:{c['k']}]) != inv(A + D)")
-            o.check(np.array_equal(keep, inv0), f"[{dt}] update_inv_sum_diag modified its input")
+    # the diagonal (exact integers, zeros in any position) as float and as integer array
+    for dd, diag in (("float", np.array(c["diagk"], dtype=float)), ("int", np.array(c["diagk"], dtype=np.int64))):
+        for dt, inv0 in vs:
+            keep = inv0.copy()
+            ok, got = _call(o, "update_inv_sum_diag", update_inv_sum_diag, inv0, diag)
+            if ok:
+                o.check(close(got, exp), f"[{dt}, diagonal {dd}] update_inv_sum_diag(inv(A), {c['diagk']}) != inv(A + D)")
+                o.check(np.array_equal(keep, inv0), f"[{dt}] update_inv_sum_diag modified its input")
 
 
 def lin(m, e):
@@ -472,7 +521,7 @@ def ev_eigrel(c, o):
                     o.check(abs(np.sum(D) - c["tr"]) <= RTOL * max(1.0, c["tr"]), t + f": sum of eigenvalues != tr(H) = {c['tr']} (exact)")
 
 
-EVAL = {"proj": ev_proj, "chord": ev_chord, "chordx": ev_chordx, "smw": ev_smw, "conv": ev_conv, "ebn0": ev_ebn0, "eig": ev_eig, "svd": ev_svd,
+EVAL = {"proj": ev_proj, "projhist": ev_projhist, "chord": ev_chord, "chordx": ev_chordx, "smw": ev_smw, "conv": ev_conv, "ebn0": ev_ebn0, "eig": ev_eig, "svd": ev_svd,
         "gmd": ev_gmd, "whiten": ev_whiten, "eigrel": ev_eigrel}
 
 
@@ -493,6 +542,8 @@ def case_key(c):
     k = c.get("family", k)
     if c["kind"] == "smw":
         return (k, c["id"], c["k"], len(c["A"]))
+    if c["kind"] == "projhist":
+        return (k, c["id"], "/".join(c["hist"]))
     shape = ""
     for f in ("A", "H", "C"):
         if f in c:
@@ -516,7 +567,9 @@ def model_devs(ctx):
     """each named deviation must be FOUND by TLC (non-vacuity of SelectorsTotal / Whitens)"""
     jobs = [("LrsvWideMatrixIndex", "svd", [[2, 4], [3, 3], [1, 3]], "SelectorsTotal"),
             ("PcmWideMatrixShape", "svd", [[3, 2], [2, 3]], "SelectorsTotal"),
-            ("WhitenEigNotOrthogonal", "whiten", [[2, 2], [1, 3]], "Whitens")]
+            ("WhitenEigNotOrthogonal", "whiten", [[2, 2], [1, 3]], "Whitens"),
+            ("SmwZeroSkipShiftsIndex", "smw", [[3, 3], [2, 2]], "SmwIsInverse"),
+            ("ProjLazyOQFromCallerArray", "projhist", [[3, 1], [3, 2]], "ProjObjectCoherent")]
 
     def one(j):
         dev, kind, shapes, inv = j
@@ -562,9 +615,15 @@ def run(ctx):
             raise tlc.TlcError(f"family {j[0]} ids {j[4]}..{j[5]} emitted no case")
         per_family[j[0]] = per_family.get(j[0], 0) + len(em)
         for c in em:
-            act = ("SmwPick" if c["k"] == 0 else "SmwStep") if c["kind"] == "smw" else ACTION_OF[j[1]]
+            if c["kind"] == "smw":
+                act = "SmwPick" if c["k"] == 0 else "SmwStep"
+            elif c["kind"] == "projhist":
+                act = "ProjHistStep" if c["hist"] else "ProjHistPick"
+            else:
+                act = ACTION_OF[j[1]]
             ctx.actions[act] = ctx.actions.get(act, 0) + 1
-        cases += em
+        # histories of the Projection object: every state carries its whole history, replay the maximal ones
+        cases += [c for c in em if c["kind"] != "projhist" or len(c["hist"]) == HIST_MAX]
     ctx.require_actions(ACTIONS)
     res = pool_map(eval_case, cases, chunksize=max(1, len(cases) // 128))
     seen = set()
